@@ -2,5 +2,6 @@ INIT Init
 NEXT Next
 INVARIANT Emit
 INVARIANT PlacementOK
+INVARIANT FreeEqualsFixed
 POSTCONDITION Post
 CHECK_DEADLOCK FALSE
